@@ -4,6 +4,30 @@ import json, os
 ROOT = os.path.dirname(os.path.dirname(os.path.abspath(__file__)))
 
 CHECKS = {
+ "C05": dict(cat="fault_enumeration", engine="enumx+refctl", ref="§2 C05",
+   technique="exhaustive fault enumeration over the ciphertext stream (every bit flip, truncation, frame deletion/duplication/permutation, reflection, cross-session frame) against hc's real receiving session",
+   text="Sender is the independent reference framing, receiver hc's real session. For 14 stream shapes every single-bit flip, every truncation offset and every frame-level rearrangement (≤4 frames) is applied and the receiver must release only an unmodified frame-granular prefix and report an error no later than the first altered frame; thorough adds all pairs from a reduced menu.",
+   note="Trusted: x/crypto ChaCha20-Poly1305 and the reference framing; more than two simultaneous alterations are not enumerated."),
+ "C06": dict(cat="exploration", engine="enumx+refctl", ref="§2 C06",
+   technique="bounded exhaustive enumeration of payload lengths × reader behaviours × message sequences on hc's real sessions, byte-for-byte differential against an independent framing implementation",
+   text="All payload lengths 0..4097 (plus six fixed larger ones) × six io.Reader delivery behaviours × both directions, contents and secrets on a grid, every 2–3 message sequence over boundary lengths: ciphertext must equal the reference framing byte for byte, hc's opposite end and the reference must decrypt it.",
+   note="Trusted: reference framing (refctl/crypto.go). Contents other than three fills and lengths above 4097 other than the fixed list are not enumerated."),
+ "C12": dict(cat="model_checking", engine="seqx+catalog", ref="§2 C12",
+   technique="exhaustive exploration of update histories (depth 2, depth 3 per behaviour class) over a JSON value alphabet on every real characteristic constructor, invariant checked after every step",
+   text="Every update sequence up to the depth bound over ≈40 JSON-like values × local/remote on every constructor present at check time; invariant (type, range, finiteness, getter, JSON encoding, no panic) evaluated after every step.",
+   note="Depth 3 is explored once per behaviour class (format, bounds, default type, permissions) — updateValue reads nothing else; only declared bounds are judged."),
+ "C15": dict(cat="exploration", engine="catalog", ref="§2 C15",
+   technique="exhaustive depth-1 enumeration of the constructor catalog (found by go/parser at check time) against gen/metadata.json",
+   text="Every constructor is called and every metadata entry compared field by field; complete for the finite catalog present at check time.",
+   note="gen/metadata.json in the tree is the reference; this is the degenerate (depth 1) form of exhaustive exploration."),
+ "C18": dict(cat="model_checking", engine="seqx(Graph)", ref="§2 C18",
+   technique="explicit-state BFS over the real file storage / pairing database with exact directory content as state key, every operation executed in every reachable state, step-by-step agreement with a Go map",
+   text="Breadth-first search to depth 4/6 (storage) and 2/3 (database) where each transition runs the real operation on a directory rebuilt by replaying the state's shortest history; all return values, listings and entities are compared with a map after every step.",
+   note="State merging on exact directory bytes is sound because the storage object holds only the path. Storage keys are limited to characters hc itself uses."),
+ "C19": dict(cat="fault_enumeration", engine="crashx (strace kill-point injection)", ref="§2 C19",
+   technique="exhaustive crash-point enumeration: the real process is SIGKILLed at the entry of every file-system syscall of every write scenario (strace fault injection), then the store is re-opened and compared with old/new",
+   text="Every file-system syscall of every scenario (16 Set old/new combinations, Delete, SaveEntity ×3, three whole-transport starts) is a kill point on the real code and kernel file system; after each kill every key must read as its previous or its new value in full.",
+   note="Process kill only (page cache survives): power loss and torn single writes are outside the property. Needs ptrace (strace)."),
  "C16": dict(cat="exploration", engine="enumx+refctl", ref="§2 C16",
    technique="bounded exhaustive enumeration of set sequences and parser inputs on the real container, differential against an independent TLV8 codec",
    text="Every tag × every value length 0..1024, every Set sequence up to depth 3/4 over boundary lengths, and every byte string up to length 2/3 (plus all prefixes/edits of valid encodings) is executed on hc's real container and compared with an independent reference codec. Exhaustive inside those bounds; contents are patterned, lengths above 1024 are a fixed list.",
